@@ -380,6 +380,70 @@ def r_grade_solvers(rep, f):
                           % (grade.fmt(ge), (" - " + why) if why else ""), (acc or hk.main_loop).get("sp"))
 
 
+def r_grade_branches(rep, f):
+    """every comparison that steers the step loop relates quantities of the same state-scale degree (or tests against zero):
+    a threshold of a different degree makes the branch taken depend on the units of the state"""
+    CMP = ("lt", "le", "gt", "ge")
+    total = 0
+    for mod, ty in CONTROLLED:
+        fn = solve_fn(mod, ty)
+        try:
+            variants = rk.analyse_variants(f, fn)
+        except rk.AnalysisError as e:
+            rep.inconc("R-GRADE-BRANCH", "R-GRADE-BRANCH:%s" % fn, str(e))
+            continue
+        seen, bad, n_ok = set(), [], 0
+        for tag, sx, hk in variants:
+            g = make_grader(sx)
+
+            def walk(c, node):
+                nonlocal n_ok
+                a = c.single_atom() if isinstance(c, Poly) else None
+                d = DEFS.get(a) if a else None
+                if not d:
+                    return
+                if d[0] in ("and", "or", "not"):
+                    for x in d[1]:
+                        walk(x, node)
+                    return
+                if d[0] not in CMP or len(d[1]) != 2:
+                    return
+                l, r = d[1]
+                if not (isinstance(l, Poly) and isinstance(r, Poly)):
+                    return
+                sig = (node.get("sp"), a)
+                if sig in seen:
+                    return
+                seen.add(sig)
+                if (l.is_const() and l.const_value() == 0) or (r.is_const() and r.const_value() == 0):
+                    n_ok += 1
+                    return
+                g.issues.clear()
+                gl, gr = g.poly(l), g.poly(r)
+                if gl in (BAD, UNKNOWN) or gr in (BAD, UNKNOWN) or (gl is POLY and gr is POLY):
+                    return
+                dl = gl[1] if gl is not POLY else Fraction(0)
+                dr = gr[1] if gr is not POLY else Fraction(0)
+                if dl != dr:
+                    bad.append((node, a, l if dl else r, dl or dr, r if dl else l))
+                else:
+                    n_ok += 1
+            for ev in sx.trace:
+                if ev["kind"] == "if" and ev.get("cond") is not None and hk.main_loop is not None and tast.contains(hk.main_loop, lambda q, n=ev["node"]: q is n):
+                    walk(ev["cond"], ev["node"])
+        total += n_ok + len(bad)
+        key = "R-GRADE-BRANCH:%s" % fn
+        rep.fn(fn)
+        if bad:
+            node, a, big, deg, other = bad[0]
+            rep.violation("R-GRADE-BRANCH", key, "a branch of the step loop compares %s (degree %s in the state scale) with %s (degree 0, not zero): "
+                          "rescaling the state changes which way it goes" % (repr(big)[:100], deg, repr(other)[:60]), node.get("sp"))
+        else:
+            rep.ok("R-GRADE-BRANCH", key, "%d loop branch comparison(s) relate operands of equal state-scale degree or test against zero" % n_ok)
+    if total < 20:
+        rep.inconc("R-GRADE-BRANCH", "R-GRADE-BRANCH:floor", "only %d branch comparisons graded" % total)
+
+
 def r_grade_hinit(rep, f):
     fn = "methods::hinit"
     b = f.bodies.get(fn)
